@@ -40,7 +40,7 @@ Proof.
     - destruct (Rle_dec x (-1/1048576)); [apply rel_n1 | apply rel_n2]; lra.
     - destruct (Rle_dec (1/1048576) x); [apply rel_p1 | apply rel_p2]; lra. }
   assert (Hn : exp x - 1 <> 0). { apply expm1_nonzero. intros ->. rewrite Rabs_R0 in H. lra. }
-  unfold Rdiv in Hq. rewrite Rabs_mult, Rabs_Rinv in Hq by auto.
+  unfold Rdiv in Hq. rewrite Rabs_mult, Rabs_inv in Hq.
   assert (0 < Rabs (exp x - 1)) by (apply Rabs_pos_lt; auto).
   apply Rmult_le_compat_r with (r := Rabs (exp x - 1)) in Hq; [|lra].
   rewrite Rmult_assoc, Rinv_l, Rmult_1_r in Hq by lra. lra.
@@ -95,23 +95,23 @@ Proof.
   assert (E2 : forall t, 0 <= t -> 0 <= exp t - 1 - t - t * t / 2).
   { intros t Ht. pose proof (mvt_nonneg (fun u => exp u - 1 - u - u * u / 2) (fun u => exp u - 1 - u) 0 t Ht) as M.
     cbv beta in M. rewrite exp_0 in M. replace (1 - 1 - 0 - 0 * 0 / 2) with 0 in M by field. apply M.
-    - intros u _. auto_derive; auto. rewrite (is_derive_unique _ _ _ (D_exp u)). field.
+    - intros u _. auto_derive; auto. field.
     - intros u Hu. apply E1. lra. }
   split; [apply E2; lra|].
   assert (U2 : forall t, 0 <= t <= 1/4 -> 0 <= 3 / 2 * t - (exp t - 1)).
   { intros t Ht. pose proof (mvt_nonneg (fun u => 3 / 2 * u - (exp u - 1)) (fun u => 3 / 2 - exp u) 0 t (proj1 Ht)) as M.
     cbv beta in M. rewrite exp_0 in M. replace (3 / 2 * 0 - (1 - 1)) with 0 in M by field. apply M.
-    - intros u _. auto_derive; auto. rewrite (is_derive_unique _ _ _ (D_exp u)). field.
-    - intros u Hu. assert (exp u <= 3 / 2); [|lra]. interval with (i_prec 30). }
+    - intros u _. auto_derive; auto. field.
+    - intros u Hu. assert (Hu' : 0 <= u <= 1/4) by lra. assert (exp u <= 3 / 2); [|lra]. interval with (i_prec 30). }
   assert (U1 : forall t, 0 <= t <= 1/4 -> 0 <= 3 / 4 * t * t - (exp t - 1 - t)).
   { intros t Ht. pose proof (mvt_nonneg (fun u => 3 / 4 * u * u - (exp u - 1 - u)) (fun u => 3 / 2 * u - (exp u - 1)) 0 t (proj1 Ht)) as M.
     cbv beta in M. rewrite exp_0 in M. replace (3 / 4 * 0 * 0 - (1 - 1 - 0)) with 0 in M by field. apply M.
-    - intros u _. auto_derive; auto. rewrite (is_derive_unique _ _ _ (D_exp u)). field.
+    - intros u _. auto_derive; auto. field.
     - intros u Hu. apply U2. lra. }
   pose proof (mvt_nonneg (fun u => u * u * u / 4 - (exp u - 1 - u - u * u / 2)) (fun u => 3 / 4 * u * u - (exp u - 1 - u)) 0 x (proj1 Hx)) as M.
   cbv beta in M. rewrite exp_0 in M. replace (0 * 0 * 0 / 4 - (1 - 1 - 0 - 0 * 0 / 2)) with 0 in M by field.
   assert (0 <= x * x * x / 4 - (exp x - 1 - x - x * x / 2)); [|lra]. apply M.
-  - intros u _. auto_derive; auto. rewrite (is_derive_unique _ _ _ (D_exp u)). field.
+  - intros u _. auto_derive; auto. field.
   - intros u Hu. apply U1. lra.
 Qed.
 
@@ -126,16 +126,16 @@ Proof.
     assert (V1 : forall t, -1/4 <= t <= 0 -> exp t - 1 - t - 3 / 4 * t * t <= 0).
     { intros t Ht. pose proof (mvt_nonneg (fun u => exp u - 1 - u - 3 / 4 * u * u) (fun u => exp u - 1 - 3 / 2 * u) t 0 (proj2 Ht)) as M.
       cbv beta in M. rewrite exp_0 in M. replace (1 - 1 - 0 - 3 / 4 * 0 * 0) with 0 in M by field. apply M.
-      - intros u _. auto_derive; auto. rewrite (is_derive_unique _ _ _ (D_exp u)). field.
+      - intros u _. auto_derive; auto. field.
       - intros u Hu. apply V2. lra. }
     pose proof (mvt_nonneg (fun u => - (exp u - 1 - u - u * u / 2 - u * u * u / 4)) (fun u => - (exp u - 1 - u - 3 / 4 * u * u)) x 0 (proj2 Hx)) as M.
     cbv beta in M. rewrite exp_0 in M. replace (- (1 - 1 - 0 - 0 * 0 / 2 - 0 * 0 * 0 / 4)) with 0 in M by field.
     assert (- (exp x - 1 - x - x * x / 2 - x * x * x / 4) <= 0); [|lra]. apply M.
-    + intros u _. auto_derive; auto. rewrite (is_derive_unique _ _ _ (D_exp u)). field.
+    + intros u _. auto_derive; auto. field.
     + intros u Hu. specialize (V1 u). lra.
   - pose proof (mvt_nonneg (fun u => exp u - 1 - u - u * u / 2) (fun u => exp u - 1 - u) x 0 (proj2 Hx)) as M.
     cbv beta in M. rewrite exp_0 in M. replace (1 - 1 - 0 - 0 * 0 / 2) with 0 in M by field. apply M.
-    + intros u _. auto_derive; auto. rewrite (is_derive_unique _ _ _ (D_exp u)). field.
+    + intros u _. auto_derive; auto. field.
     + intros u Hu. apply E1.
 Qed.
 
@@ -145,6 +145,9 @@ Proof.
   - destruct (exp_cubic_neg x) as [A B]; [lra|]. rewrite (Rabs_left x) by lra. rewrite Rabs_left1 by lra. lra.
   - destruct (exp_cubic_pos x) as [A B]; [lra|]. rewrite (Rabs_right x) by lra. rewrite Rabs_right by lra. lra.
 Qed.
+
+Lemma Rabs_lower (u v : R) : Rabs u - Rabs v <= Rabs (u + v).
+Proof. replace (u + v) with (u - - v) by ring. rewrite <- (Rabs_Ropp v). apply Rabs_triang_inv. Qed.
 
 Lemma expm1_rat_rel_sliver (x : R) : Rabs x <= / 134217728 ->
   Rabs (expm1_rat R_ops x - (exp x - 1)) <= / 9007199254740992 * Rabs (exp x - 1).      (* 2^-53 *)
@@ -168,10 +171,11 @@ Proof.
   (* |em1| >= a - a^2/2 - a^3/4 >= a * 0.99 *)
   assert (H2 : a * (99 / 100) <= Rabs (exp x - 1)).
   { replace (exp x - 1) with ((x + x * x / 2) + (exp x - 1 - x - x * x / 2)) by ring.
-    eapply Rle_trans; [|apply Rabs_triang_inv]. 
-    assert (Rabs (x + x * x / 2) >= a - a * a / 2).
-    { replace (x + x * x / 2) with (x - - (x * x / 2)) by ring. eapply Rge_trans; [apply Rle_ge, Rabs_triang_inv|].
-      rewrite Rabs_Ropp. unfold Rdiv. rewrite !Rabs_mult. fold a. rewrite (Rabs_right (/ 2)) by lra. lra. }
+    pose proof (Rabs_lower (x + x * x / 2) (exp x - 1 - x - x * x / 2)) as L1.
+    pose proof (Rabs_lower x (x * x / 2)) as L2.
+    assert (L3 : Rabs (x * x / 2) = a * a / 2).
+    { unfold Rdiv. rewrite !Rabs_mult. fold a. rewrite (Rabs_right (/ 2)) by lra. reflexivity. }
+    fold a in L2. rewrite L3 in L2.
     assert (a * a <= a * (/ 134217728)) by (apply Rmult_le_compat_l; lra).
     assert (a * a * a <= a * a * (/ 134217728)) by (apply Rmult_le_compat_l; [nra|lra]).
     nra. }
